@@ -141,7 +141,8 @@ def count_paths(
         cal = None
         if n.op == "await" and n.awaited is not None and n.awaited.kind == "pkg":
             cal = n.awaited
-        elif n.op == "call" and n.callee is not None and n.callee.kind == "pkg" and all(not t.is_async for t in n.callee.targets):
+        elif n.op == "call" and n.callee is not None and n.callee.kind == "pkg" and all(not t.is_async for t in n.callee.targets) \
+                and not any(an.is_generator(t) for t in n.callee.targets):
             cal = n.callee
         elif n.op in ("enter", "exit_ctx") and n.callee is not None and n.callee.kind == "pkg":
             cal = n.callee
